@@ -24,6 +24,10 @@ import Verif.Model.Admin
           boot                                start the CA on that database
       <faults> = `-` or positions joined by `+` (1-based database calls inside the request)
 
+    tok   p= c= d= g= (bits) prov= rk= now= nbf= exp= iat= aud=<raw~stripped,…> dns= path= m= iss= sub=
+          sans= adm=<sub~provname~id~super,…> rep=<0|1> routed=<0|1>      one admin-API request
+          → `<ok:<admin id>:<super>|401|404> h-<401|not401|unrouted> aw-<0|1>`
+
   Output: `ok<number of accepted mutations>:` then one item per operation joined by `;`.  A mutating operation yields
   `<outcome>#<dump of every index>`; Find yields `f:<ids>/<next>`; pages `p:<page>|<page>…`.
 -/
@@ -158,6 +162,61 @@ def authOp (s : Auth) (tok : String) : Option (Auth × String) :=
     pure (s, pagesS (fun e : Str × Prov => h e.2.id) (s.cache.P.pages (← int? l) fuel) fuel)
   | _ => none
 
+
+/-! ### stage `tok`: one admin-API request against `authorizeAdmin` -/
+
+def kvs (line : String) : List (String × String) :=
+  (fields line).filterMap fun f =>
+    match f.splitOn "=" with
+    | [k, v] => some (k, v)
+    | _ => none
+
+def look (kv : List (String × String)) (k : String) : Option String := (kv.find? (·.1 = k)).map (·.2)
+
+def listOf {α : Type} (f : String → Option α) (t : String) : Option (List α) :=
+  if t = "-" then some [] else (t.splitOn ",").mapM f
+
+def optInt? (t : String) : Option (Option Int) := if t = "!" then some none else t.toInt?.map some
+
+def aud? (t : String) : Option Aud :=
+  match t.splitOn "~" with
+  | [a, b] => do pure ⟨(← str? a), (← str? b)⟩
+  | _ => none
+
+def admEntry? (t : String) : Option ((Str × Str) × Adm) :=
+  match t.splitOn "~" with
+  | [sub, pn, id, sup] => do
+    let sub ← str? sub
+    pure ((sub, (← str? pn)), { id := (← str? id), sub := sub, provId := [], super := (← bool? sup) })
+  | _ => none
+
+def tokEval (line : String) : Option String := do
+  let kv := kvs line
+  let r : AdminReq := {
+    parseOk := (← bool? (← look kv "p")), chainOk := (← bool? (← look kv "c")),
+    digSig := (← bool? (← look kv "d")), sigOk := (← bool? (← look kv "g")),
+    prov := (← optStr? (← look kv "prov")), reuseKey := (← optStr? (← look kv "rk")),
+    now := (← int? (← look kv "now")), nbf := (← optInt? (← look kv "nbf")),
+    exp := (← optInt? (← look kv "exp")), iat := (← optInt? (← look kv "iat")),
+    aud := (← listOf aud? (← look kv "aud")), dnsNames := (← listOf str? (← look kv "dns")),
+    path := (← str? (← look kv "path")), method := (← str? (← look kv "m")),
+    iss := (← str? (← look kv "iss")), sub := (← str? (← look kv "sub")),
+    sans := (← listOf str? (← look kv "sans")) }
+  let A : AColl := { bySubProv := (← listOf admEntry? (← look kv "adm")) }
+  let rep ← bool? (← look kv "rep")
+  let routed ← bool? (← look kv "routed")
+  let first := authorizeAdmin A [] r
+  let res := if rep then (authorizeAdmin A first.1 r).2 else first.2
+  let d := match res with
+    | .ok a => s!"ok:{h a.id}:{b a.super}"
+    | .unauthorized => "401"
+    | .provNotFound => "404"
+  let aw := b (adminsPrefix.isPrefixOf r.path && r.method != GET)
+  let hh := if !routed then "unrouted" else match res with
+    | .unauthorized => "401"
+    | _ => "not401"
+  pure s!"{d} h-{hh} aw-{aw}"
+
 def runOps {σ : Type} (f : σ → String → Option (σ × String)) : σ → List String → List String → Option (List String)
   | _, [], acc => some acc.reverse
   | s, t :: r, acc => do
@@ -173,6 +232,7 @@ def eval (line : String) : Option String := do
   match toks with
   | "coll" :: ops => do pure (summary (← runOps collOp {} ops []))
   | "auth" :: ops => do pure (summary (← runOps authOp {} ops []))
+  | "tok" :: _ => tokEval line
   | _ => none
 
 end C16
